@@ -74,6 +74,60 @@ def _specialise(rng, tree):
     return kinds
 
 
+TRAP_PAIRS = [(1.0, 1.0), (1e-6, 1e-6), (2.2e-3, 4.7e-6), (0.5, 2.0), (1e-3, 1e-3), (4.7e-3, 1e-5), (1e-2, 1e-4), (3.3e-2, 1e-7)]
+
+
+def _plain_spec(sym, **values):
+    info = G.catalogue()[sym]
+    return {"t": "E", "sym": sym, "label": "", "subs": {}, "_states": [],
+            "p": {k: [G.enc(values.get(k, d)), G.enc(lo), G.enc(hi), bool(fx)] for k, (d, lo, hi, fx) in info["params"].items()}}
+
+
+def _inject_trap(rng, tree):
+    """Adds a series L-C branch to a parallel connection of the tree and returns the frequency at which that branch is an EXACT
+    short (Z_L + Z_C == 0 in floating point, checked on the real elements) - a branch that shorts the connection at one
+    frequency of the vector only.  Returns None when no exactly cancelling frequency is found."""
+    if rng.random() < 0.6:
+        L, C = TRAP_PAIRS[int(rng.integers(0, len(TRAP_PAIRS)))]
+    else:
+        L, C = float("%.2E" % 10 ** rng.uniform(-6, 1)), float("%.2E" % 10 ** rng.uniform(-9, 1))
+    sl, sc = _plain_spec("L", L=L), _plain_spec("C", C=C)
+    el, ec = G.build_element(sl), G.build_element(sc)
+    f0 = 1.0 / (2.0 * math.pi * math.sqrt(L * C))
+    cands = [f0]
+    up = dn = f0
+    for _ in range(3):
+        up, dn = float(np.nextafter(up, np.inf)), float(np.nextafter(dn, 0.0))
+        cands += [up, dn]
+    hit = None
+    for f in cands:
+        z = 0j + complex(el.get_impedances(np.array([f]))[0]) + complex(ec.get_impedances(np.array([f]))[0])
+        if z == 0:
+            hit = f
+            break
+    if hit is None:
+        return None
+    branch = {"t": "S", "c": [sl, sc] if rng.random() < 0.5 else [sc, sl]}
+    pars = []
+
+    def walk(n):
+        if n["t"] == "P":
+            pars.append(n)
+        if n["t"] in ("S", "P"):
+            for ch in n["c"]:
+                walk(ch)
+    walk(tree)
+    if pars:
+        host = pars[int(rng.integers(0, len(pars)))]
+        host["c"].insert(int(rng.integers(0, len(host["c"]) + 1)), branch)
+    else:
+        i = int(rng.integers(0, len(tree["c"]))) if tree["c"] else None
+        if i is None:
+            return None
+        tree["c"][i] = {"t": "P", "c": [branch, tree["c"][i]] if rng.random() < 0.5 else [tree["c"][i], branch]}
+    return hit
+
+
 class Ref:
     """extended-complex reference evaluator over the intended tree, using the real elements for leaves"""
 
@@ -488,6 +542,12 @@ def run_case(case):
         kinds = _specialise(rng, t)
         t = _round12(t)
         f = _freqs(rng)
+        if case["kind"] == "rand" and rng.random() < 0.15:
+            f0 = _inject_trap(rng, t)
+            if f0 is not None:
+                kinds.add("partial_short")
+                f = np.concatenate([f, 10.0 ** rng.uniform(-6, 9, size=2), [f0, f0 * 3, f0 / 100]])
+                f = f[rng.permutation(len(f))]
         for x in kinds:
             st["tree_with_" + x] = st.get("tree_with_" + x, 0) + 1
         n0 = len(viol)
